@@ -296,10 +296,10 @@ namespace
         pat_fill(p, n * node, id);
         mine.push_back(Live{id, p, array, n});
         std::lock_guard<std::mutex> g(g_log);
-        // the address is logged as an offset relative to nothing: split into two 30 bit words
+        // the address is logged as an offset relative to nothing: split at bit 28 (both words stay far below the 10^9 clamp of the trace writer)
         auto a = reinterpret_cast<std::uintptr_t>(p);
-        Ev("talloc").i("t", t_id).i("id", id).s("how", how).i("hi", static_cast<long long>(a >> 30)).i(
-            "lo", static_cast<long long>(a & ((1u << 30) - 1))).u("len", n * node);
+        Ev("talloc").i("t", t_id).i("id", id).s("how", how).i("hi", static_cast<long long>(a >> 28)).i(
+            "lo", static_cast<long long>(a & ((1u << 28) - 1))).u("len", n * node);
     }
     void log_free(const Live& l)
     {
@@ -311,29 +311,38 @@ namespace
 
     void single_pass(IStore& st)
     {
+        // every forwarding member at least once, arrays also with count == 1, every release member on memory of
+        // every allocation member
         std::vector<Live> mine;
-        log_alloc(st.an(node, 8), false, 1, "an", mine);
-        log_alloc(st.aa(3, node, 8), true, 3, "aa", mine);
-        if (st.composable())
+        for (int round = 0; round < 3; ++round)
         {
-            log_alloc(st.tn(node, 8), false, 1, "tn", mine);
-            log_alloc(st.ta(2, node, 8), true, 2, "ta", mine);
-        }
-        st.queries();
-        log_alloc(st.proxy_an(node, 8), false, 1, "proxy", mine);
-        log_alloc(st.proxy_moved_an(node, 8), false, 1, "proxy_moved", mine);
-        bool use_try = st.composable();
-        while (!mine.empty())
-        {
-            Live l = mine.back();
-            mine.pop_back();
-            log_free(l);
-            if (use_try && mine.size() % 2 == 0)
-                l.array ? (void)st.tda(l.p, l.n, node, 8) : (void)st.tdn(l.p, node, 8);
-            else if (!l.array && mine.size() % 3 == 0)
-                st.proxy_dn(l.p, node, 8);
-            else
-                l.array ? st.da(l.p, l.n, node, 8) : st.dn(l.p, node, 8);
+            log_alloc(st.an(node, 8), false, 1, "an", mine);
+            log_alloc(st.aa(3, node, 8), true, 3, "aa", mine);
+            log_alloc(st.aa(1, node, 8), true, 1, "aa1", mine);
+            if (st.composable())
+            {
+                log_alloc(st.tn(node, 8), false, 1, "tn", mine);
+                log_alloc(st.ta(2, node, 8), true, 2, "ta", mine);
+                log_alloc(st.ta(1, node, 8), true, 1, "ta1", mine);
+            }
+            st.queries();
+            log_alloc(st.proxy_an(node, 8), false, 1, "proxy", mine);
+            log_alloc(st.proxy_moved_an(node, 8), false, 1, "proxy_moved", mine);
+            bool use_try = st.composable();
+            int  k       = round; // rotates which release member meets which allocation
+            while (!mine.empty())
+            {
+                Live l = mine.back();
+                mine.pop_back();
+                log_free(l);
+                int how = k++ % 3;
+                if (use_try && how == 0)
+                    l.array ? (void)st.tda(l.p, l.n, node, 8) : (void)st.tdn(l.p, node, 8);
+                else if (!l.array && how == 1)
+                    st.proxy_dn(l.p, node, 8);
+                else
+                    l.array ? st.da(l.p, l.n, node, 8) : st.dn(l.p, node, 8);
+            }
         }
     }
 
